@@ -79,6 +79,7 @@ CT_DECOS = [
     ("m_foreign_attr", "m_after", "#[i18n::attr(serde(rename = \"no\"))]"),
     ("item_foreign_custom", "item", "#[acl::custom(msg = Nope)]"),
     ("item_foreign_error", "item", "#[other::error(Nope)]"),
+    ("item_allow_multi", "item", "#[allow(clippy::new_without_default, non_snake_case, dead_code)]"),
     ("h_foreign_msg", "helper", "#[clippy::msg(query)]\nfn helper_f(&self, n: u32) -> u32 { n }"),
     # binding modes are part of the signature as written
     ("p_mut", "p_attr", "mut "),
